@@ -19,6 +19,7 @@ static size_t ISLEN, ITRUE_END;
 static const uint8_t *IX;
 static size_t IXLEN;
 static int ICRC;
+static int I_INVALID; /* the byte string is NOT a valid stream (reference verdict): under every schedule isal_inflate must never report completion, must terminate and stay in bounds */
 static const int IA_IN[] = { 0, 1, 2, 3, 4, 7, 8, 9, -1 };
 static const int IA_OUT[] = { 0, 1, 2, 3, 7, 8, 9, 257, 258, 259, 273, 274, 275, -1 };
 #define NIA_IN 9
@@ -73,7 +74,7 @@ static int inf_call(int ci, int co, const struct ex_model *m)
 	char key[600];
 	size_t rem_in = ISLEN - ICUR.in_off;
 	size_t k = ci < 0 || (size_t)ci > rem_in ? rem_in : (size_t)ci;
-	size_t cap = co < 0 ? IXLEN - ICUR.out_off + 64 : (size_t)co;
+	size_t cap = co < 0 ? (I_INVALID ? IXLEN + 600 : IXLEN - ICUR.out_off + 64) : (size_t)co;
 	if (IHDRLEN && ICUR.in_off < IHDRLEN && ICUR.in_off + k < IHDRLEN && (ICUR.in_off + k) > 0)
 		ICUR.tainted = 1; /* this history splits a rich gzip header across calls: known finding, see known_findings.txt */
 	uint8_t *in = g_alloc(k, G_END), *out = g_alloc(cap, G_END);
@@ -104,11 +105,14 @@ static int inf_call(int ci, int co, const struct ex_model *m)
 	} else if (IST->total_out - total_before != produced) {
 		v_violation(key, "total_out advanced by %u but %zu bytes were written; schedule [%s]", IST->total_out - total_before, produced, m ? ex_path_str(m) : "");
 		bad = 1;
-	} else if (ICUR.out_off + produced > IXLEN || memcmp(out, IX + ICUR.out_off, produced)) {
+	} else if (!I_INVALID && (ICUR.out_off + produced > IXLEN || memcmp(out, IX + ICUR.out_off, produced))) {
 		v_violation(key, "output deviates from the one-shot result at offset %u (+%zu); schedule [%s]", ICUR.out_off, produced, m ? ex_path_str(m) : "");
 		bad = 1;
-	} else if (ret != ISAL_DECOMP_OK) {
+	} else if (!I_INVALID && ret != ISAL_DECOMP_OK) {
 		v_violation(key, "isal_inflate returned %d on a valid stream; schedule [%s]", ret, m ? ex_path_str(m) : "");
+		bad = 1;
+	} else if (I_INVALID && ret >= 0 && ret != ISAL_NEED_DICT && IST->block_state == ISAL_BLOCK_FINISH) {
+		v_violation(key, "reports completion (return %d, FINISH, %zu bytes) on bytes the reference decoder rejects; schedule [%s]", ret, ICUR.out_off + produced, m ? ex_path_str(m) : "");
 		bad = 1;
 	}
 	if (!bad && g_check()) {
@@ -123,6 +127,13 @@ static int inf_call(int ci, int co, const struct ex_model *m)
 	ICUR.in_off += consumed;
 	ICUR.out_off += produced;
 	ICUR.last_ret = ret;
+	if (I_INVALID) {
+		if (ret < 0 || ret == ISAL_NEED_DICT) {
+			v_outcome(v_mix(0xbad, (uint64_t)(int64_t)ret));
+			return EX_TERMINAL;
+		}
+		return EX_NEXT;
+	}
 	if (IST->block_state == ISAL_BLOCK_FINISH) {
 		size_t pos = ICUR.in_off - (IST->read_in_length > 0 ? IST->read_in_length / 8 : 0);
 		if (ICUR.out_off != IXLEN || pos != ITRUE_END) {
@@ -157,6 +168,8 @@ static int inf_finish_generously(const struct ex_model *m, int horizon)
 			return 0;
 		if (r == EX_VIOLATION)
 			return -1;
+		if (I_INVALID && ICUR.in_off == io && ICUR.out_off == oo && ICUR.in_off == ISLEN)
+			return 0; /* everything consumed, the codec waits for more input: a legitimate end for a truncated/invalid stream */
 		if (ICUR.in_off == io && ICUR.out_off == oo && (int)IST->block_state == bs) {
 			char key[600];
 			snprintf(key, sizeof key, "inflate no-progress %s", ctxdesc);
